@@ -149,7 +149,7 @@ func (x *Exec) staticCall(fr *Frame, st *State, site ssa.Instruction, fn *ssa.Fu
 	if ct := x.eng.contracts.Funcs[key]; ct != nil && ct.Opts["inline"] == "" {
 		return pack(x.applyContract(fr, st, fn, ct, args, pos), rt)
 	}
-	if x.eng.inlinable(fn) && len(x.inlineStack) < 8 && !x.onStack(fn) {
+	if x.eng.inlinable(fn) && len(x.inlineStack) < 3 && !x.onStack(fn) && len(x.vc.lines) < 60000 {
 		return pack(x.inline(fr, st, fn, args, bind, pos), rt)
 	}
 	return x.havocCall(fr, st, fn, nil, args, rt, pos)
